@@ -13,7 +13,7 @@ META = {
                    'int->enum conversion returns the variant whose discriminant is the matched value; (R18.3) PER pairs: the object identifier '
                    'reader stores the six arcs the writer emits, read_length recovers every bit write_length emits (bit-provenance domain) and '
                    'the short/long thresholds agree, integer size classes agree, integer_16 offsets are inverse; (R18.4) every ASN1 impl pairs '
-                   'write_X with read_X of the same yasna primitive; (R18.5) every DynOption of every constructor targets an existing later field.',
+                   'write_X with read_X of the same yasna primitive; (R18.5) every DynOption of every constructor targets an existing later field; (R18.6) GCC server blocks are framed by their declared length: the body is read off the stream completely and parsed from that copy.',
     'assumptions': ['byteorder / yasna implement the primitives they name', 'value-level round trip for all inputs is not decided'],
     'trusted_base': ['rustc nightly MIR construction', 'mirfacts exporter', 'rules/c18.py, dsl.py, bits.py, sym.py, facts.py'],
 }
@@ -307,6 +307,57 @@ def run(ctx):
             break
     ctx.floor('R18.5', 'DynOption fields with decoded closures', n_dyn, 23)
 
+
+    # ---- R18.6 GCC server blocks are framed by their own length: the body is taken off the stream entirely, parsers work on that copy ------
+    gc = ctx.body('core::gcc::read_conference_create_response')
+    rex = [c for c in gc.calls if c.callee.endswith('Read::read_exact') or c.callee.endswith('read_exact')]
+    takes = [c for c in gc.calls if c.callee.endswith('Read::take')]
+    ok_frame = False
+    why = 'no read_exact of the block body'
+    buf_local = None
+    if len(rex) == 1 and takes:
+        c = rex[0]
+        rd_src = [o.call.callee for o in origins(gc, c.args[0]) if o.kind == 'call']
+        bufs = [o.call for o in origins(gc, c.args[1]) if o.kind == 'call' and o.call.callee == 'std::vec::from_elem']
+        size_from_len = False
+        for bcall in bufs:
+            vis = set()
+            os_ = origins(gc, bcall.args[1], visited=vis)
+            def from_length(ops, depth=0):
+                for o in ops:
+                    if o.kind == 'const' and '"length"' in str(o.const):
+                        return True
+                    if o.kind == 'call' and depth < 6:
+                        if re.search(r'Index<.*>>::index$', o.call.callee) and any(oo.kind == 'const' and '"length"' in str(oo.const) for a in o.call.args for oo in origins(gc, a)):
+                            return True
+                        if re.search(r'ok_or$|checked_sub$|Message::visit$|Try>::branch$|Value::<Type>::inner$|Index<.*>>::index$', o.call.callee) and o.call.args \
+                                and from_length(origins(gc, o.call.args[0]), depth + 1):
+                            return True
+                return False
+            size_from_len = from_length(os_)
+            buf_local = bcall.dest['l']
+        ok_frame = any(x.endswith('Read::take') for x in rd_src) and bool(bufs) and size_from_len
+        why = 'reader from %s, buffer %s, size from the length field: %s' % (rd_src[:2], 'vec![0; n]' if bufs else 'not a fresh vector', size_from_len)
+    ctx.check(ok_frame, 'R18.6', 'gcc:block_body', 'each server block body (length - header) is read completely off the bounded response stream', gc.where(),
+              'read_conference_create_response does not take each block body (declared length - 4 bytes) off the stream with one read_exact (%s): bytes a '
+              'block parser leaves unread would be taken for the next block header' % why)
+    n_parsers = 0
+    for c in gc.calls:
+        if not re.search(r'Message(>)?::read$', c.callee) or not c.args:
+            continue
+        self_src = [o.call.callee for o in origins(gc, c.args[0]) if o.kind == 'call']
+        if not any(re.search(r'gcc::server_(core|security|network)_data$', x) for x in self_src):
+            continue
+        n_parsers += 1
+        rsrc = [o.call for o in origins(gc, c.args[1]) if o.kind == 'call']
+        names = [x.callee for x in rsrc]
+        cur = [x for x in rsrc if x.callee.endswith('Cursor::<T>::new')]
+        from_buf = bool(cur) and all(any((o.kind == 'call' and o.call.callee == 'std::vec::from_elem') for o in origins(gc, x.args[0])) for x in cur)
+        good = (from_buf or 'std::vec::from_elem' in names) and not any(x.endswith('Read::take') for x in names) and (not rex or gc.dominates(rex[0].block, c.block))
+        ctx.check(good, 'R18.6', 'gcc:parser:%s' % [x for x in self_src if 'server_' in x][0].rsplit('::', 1)[-1],
+                  'the block parser reads from a cursor over the extracted body, after it has been taken off the stream', c.where(),
+                  'a GCC block parser reads directly from the response stream (%s): what it does not consume is left in front of the next block' % names[:3])
+    ctx.floor('R18.6', 'GCC server block parsers', n_parsers, 3)
 
 def const_return(body):
     for bi in range(body.n):
